@@ -619,3 +619,38 @@ def in_memory_get(props=None):
                        z3.And(s.rd(q, 'id') == Val.s(rid), s.g['ddom'][Val.addr(qd)] == E_DDOM(e), z3.Implies(E_DDOM(e)[k_], s.g['dmap'][Val.addr(qd)][k_] == CP(E_DMAP(e)[k_])),
                               z3.Or(s.g['ddom'][Val.addr(qm)] == E_MDOM(e), z3.And(E_MDOM(e) == z3.K(Val, False), s.g['ddom'][Val.addr(qm)] == z3.K(Val, False)))), oc))
     return [info], obl, {'paths': n, 'forks': ex.forks}
+
+
+def base_cassette_misc(props=None):
+    """TapeCassette.abort_recording closes the recording and stores nothing; Recording.__getitem__ is get_data; __exit__ closes the cassette"""
+    obl = []; infos = []; n = 0
+    repo, spec, ex = mk(); m, cls, node, info = repo.find(TC + 'abort_recording'); infos.append(info)
+    st = St(); selfv = st.sym_obj('self', 'InMemoryTapeCassette'); store = st.sym_obj('store', 'OrderedDict'); st.wr(selfv, '_recordings', store)
+    rec, d, mt, rid = sym_recording(st); s0 = st.dcontents(store); d0 = st.dcontents(d)
+    st.push({'self': selfv, 'recording': rec}, None, (m.name, cls, node))
+    for s, oc in ex.block(node.body, st):
+        n += 1
+        obl.append(Obl('C05/TapeCassette.abort_recording/closes_the_recording_stores_nothing_never_raises', ('C05', 'C04', 'C17'), s,
+                       z3.And(z3.BoolVal(oc[0] in ('normal', 'return')), truthy(s.rd(rec, '_closed')), s.dcontents(store)[0] == s0[0], s.dcontents(store)[1] == s0[1],
+                              s.dcontents(d)[0] == d0[0], s.dcontents(d)[1] == d0[1]), oc))
+    repo, spec, ex = mk(); m, cls, node, info = repo.find(RC + '__getitem__'); infos.append(info)
+    st = St(); rec, d, mt, rid = sym_recording(st); k = fresh('item'); d0 = st.dcontents(d)
+    st.push({'self': rec, 'item': k}, None, (m.name, cls, node))
+    for s, oc in ex.block(node.body, st):
+        n += 1
+        if oc[0] == 'return':
+            obl.append(Obl('C11/Recording.__getitem__/is_a_fresh_copy_like_get_data', ('C11', 'C07'), s, z3.And(d0[0][k], oc[1] == CP(d0[1][k])), oc))
+        else:
+            obl.append(Obl('C07/Recording.__getitem__/raises_like_get_data', ('C07', 'C11'), s, z3.Or(z3.And(z3.Not(d0[0][k]), TYP(Val.addr(oc[1])) == K('RecordingKeyError')), is_exc(oc[1])), oc))
+    repo, spec, ex = mk(); m, cls, node, info = repo.find(TC + '__exit__'); infos.append(info)
+    st = St(); selfv = st.sym_obj('self', 'TapeCassette', False); calls = []
+
+    def c_close(ex_, s, args, kw, node_, star, dstar):
+        s.g['closed'] = s.g.get('closed', 0) + 1; return [(s, ('val', NONE))]
+    ex.contracts['TapeCassette.close'] = c_close
+    st.push({'self': selfv, 'exc_type': fresh('t'), 'exc_val': fresh('v'), 'exc_tb': fresh('tb')}, None, (m.name, cls, node))
+    for s, oc in ex.block(node.body, st):
+        n += 1
+        obl.append(Obl('C15/TapeCassette.__exit__/is_exactly_close_and_does_not_suppress', ('C15', 'C07'), s,
+                       z3.And(z3.BoolVal(s.g.get('closed', 0) == 1), z3.BoolVal(oc[0] == 'normal') if oc[0] == 'normal' else z3.Not(truthy(oc[1])) if oc[0] == 'return' else z3.BoolVal(False)), oc))
+    return infos, obl, {'paths': n, 'forks': 0}
